@@ -84,7 +84,7 @@ PROPS = {
                 gen_args=[], metamorphic_flags=True, topics=slice_of(ALL_TOPICS + ['disconnect'], outs=GATED)),
 }
 PROPS['C18'] = dict(modules=['Hagall.Props.C18'], profiles=['latency', 'mixed'], n=(240, 4000), focus={'signedLatency', 'pingResp'},
-                    extra=['latency_stats'], topics=slice_of(['signedLatency', 'pingResp', 'ping'], outs={'pingReq', 'latencyResp', 'error', 'pingResp'}))
+                    tools=['drive', 'extract', 'wire'], extra=['latency_stats', 'wire_harness'], topics=slice_of(['signedLatency', 'pingResp', 'ping'], outs={'pingReq', 'latencyResp', 'error', 'pingResp'}))
 PROPS['C19'] = dict(modules=['Hagall.Props.C19'], profiles=['malformed', 'mixed'], n=(160, 3000), focus={'receipt'}, tools=['drive', 'extract', 'receipts', 'wire'],
                     extra=['receipts_harness', 'wire_harness'], topics=slice_of(['receipt', 'drain'], kinds=[]))
 PROPS['C15'] = dict(modules=['Hagall.Props.C15'], profiles=['mixed'], n=(20, 20), focus=None, tools=['drive', 'extract', 'auth'],
